@@ -1,95 +1,186 @@
 ------------------------------- MODULE StoreMP -------------------------------
 (***************************************************************************)
-(* Several processes updating ONE token object file through the protocol   *)
-(* of ObjectFile / Generation / File (C15; the crash window of C16), at    *)
-(* file-operation grain.                                                   *)
+(* Several processes working on ONE token object file through the protocol *)
+(* of ObjectFile / Generation / File, at the grain of groups of file       *)
+(* operations (C15; the crash window of C16).                              *)
 (*                                                                         *)
-(* A C_SetAttributeValue in process p is                                   *)
-(*   refresh      reload the object if the generation on disk differs      *)
-(*                (ObjectFile::isValid -> refresh, under a read lock)      *)
-(*   txlock       take the transaction lock (<uuid>.lock, fcntl)           *)
-(*   [refresh2]   reload again under the lock - NOT done by the code       *)
-(*   mem          change the attribute in the cached copy                  *)
-(*   wlock        write-lock the object file; sync the generation number   *)
-(*   trunc        ftruncate(0)            (Atomic: nothing happens yet)    *)
-(*   flush        write cache with generation + 1, unlock the object file  *)
-(*   txunlock     release the transaction lock; the call returns CKR_OK    *)
-(* Each process changes "its own" attribute, so two committed updates      *)
-(* never conflict: nothing may be lost.                                    *)
+(* C_SetAttributeValue in process p is the sequence                        *)
+(*   refresh    ObjectFile::isValid -> refresh: re-index, compare the      *)
+(*              generation under a read lock, reload if it differs; a      *)
+(*              missing file invalidates the handle                        *)
+(*   txlock     take the transaction lock (<uuid>.lock, fcntl);            *)
+(*              [reload again under the lock - NOT done by the code];      *)
+(*              change the attribute in the cached copy                    *)
+(*   wlock      open (O_CREAT!) and write-lock the object file; read the   *)
+(*              generation number on disk (Generation::sync)               *)
+(*   trunc      ftruncate(0)            (Atomic: nothing happens yet)      *)
+(*   flush      write the cache with generation + 1, unlock                *)
+(*   txunlock   release the transaction lock; the call returns CKR_OK      *)
+(* C_DestroyObject is  refresh, rm (unlink the object file), rmlock        *)
+(* (unlink the lock file; the call returns).  C_GetAttributeValue and      *)
+(* C_FindObjects are one step (they take only the read lock).              *)
+(* Process p changes "its own" attribute p, so two committed updates never *)
+(* conflict: nothing may be lost.                                          *)
 (*                                                                         *)
-(* Two switches give the variants:                                         *)
-(*   RefreshUnderTxLock = FALSE, Atomic = FALSE   the code as built        *)
-(*   RefreshUnderTxLock = TRUE                    repairs the lost update  *)
-(*   Atomic = TRUE (write elsewhere, then rename) repairs the crash window *)
-(* TLC: the as-built variant violates NoLostCommittedUpdate (a 17-step     *)
-(* schedule, replayed on two real processes by the C15 check) and          *)
-(* CrashOldOrNew; the repaired variant satisfies both.                     *)
+(* Switches (sets of allowed choices, so that a trace specification can    *)
+(* leave the choice open):                                                 *)
+(*   Reload   = {FALSE}  the code as built: no reload under the lock       *)
+(*            = {TRUE}   required: repairs the lost update                 *)
+(*   Recreate = {TRUE}   as built: a commit re-creates a removed file      *)
+(*            = {FALSE}  required: the commit fails instead                *)
+(*   Atomic   = TRUE     write elsewhere, then rename: repairs the crash   *)
+(*                       window                                            *)
+(* TLC: the as-built variant violates NoLostCommittedUpdate,               *)
+(* DestroyedStaysDestroyed and CrashOldOrNew; the required one satisfies   *)
+(* all three.                                                              *)
 (***************************************************************************)
 EXTENDS Naturals, FiniteSets, Sequences, TLC
-CONSTANTS Procs, Attrs, NCalls, RefreshUnderTxLock, Atomic
+CONSTANTS Procs, NCalls, Kinds, Reload, Recreate, Atomic
 
-VARIABLES disk,       \* the object file: [gen, attrs, e]; e = TRUE: empty (truncated)
+Attrs == 1 .. 3                                 \* Procs \subseteq Attrs
+VARIABLES disk,       \* the object file: [gen, attrs, e (empty: truncated), x (exists), ino, lk (the lock file exists)]
           objW,       \* process holding the write lock on the object file (0: none)
           txLock,     \* process holding the transaction lock (0: none)
-          cache,      \* per process: its in-memory copy [gen, attrs, e]
-          pc, todo, done,
+          cache,      \* per process: its in-memory copy [gen, attrs, wino (the inode it has open for writing)]
+          pc, kind,   \* per process: where it is in its call, and which call
+          has,        \* per process: it holds an object handle it believes valid
+          blind,      \* per process: it removed the file itself; its directory snapshot keeps the name, so it never
+                      \* notices a file of that name again (matters only once a file is re-created: Recreate)
+          todo, done,
           committed,  \* ghost: per attribute the last value whose call returned CKR_OK
+          destroyed,  \* ghost: a C_DestroyObject returned CKR_OK
+          out,        \* the result of the step (observation)
           crashed
-vars == <<disk, objW, txLock, cache, pc, todo, done, committed, crashed>>
+vars == <<disk, objW, txLock, cache, pc, kind, has, blind, todo, done, committed, destroyed, out, crashed>>
+View == <<disk, objW, txLock, cache, pc, kind, has, blind, todo, done, committed, destroyed, crashed>>
 
-Rec(g, a) == [gen |-> g, attrs |-> a, e |-> FALSE]
-EmptyF    == [gen |-> 0, attrs |-> [a \in Attrs |-> 0], e |-> TRUE]
-Mine(p)   == p                                  \* Procs \subseteq Attrs
+Zero == [a \in Attrs |-> 0]
+NoOut == <<0, "none", "none", Zero>>
+Loaded == [gen |-> disk.gen, attrs |-> disk.attrs, wino |-> 0]
 
-Init == /\ disk = Rec(1, [a \in Attrs |-> 0])
+Init == /\ disk = [gen |-> 1, attrs |-> Zero, e |-> FALSE, x |-> TRUE, ino |-> 1, lk |-> TRUE]
         /\ objW = 0 /\ txLock = 0
-        /\ cache = [p \in Procs |-> Rec(1, [a \in Attrs |-> 0])]
-        /\ pc = [p \in Procs |-> "idle"]
-        /\ todo = [p \in Procs |-> NCalls]
-        /\ done = [p \in Procs |-> 0]
-        /\ committed = [a \in Attrs |-> 0]
-        /\ crashed = FALSE
+        /\ cache = [p \in Procs |-> [gen |-> 1, attrs |-> Zero, wino |-> 0]]
+        /\ pc = [p \in Procs |-> "idle"] /\ kind = [p \in Procs |-> "none"]
+        /\ has = [p \in Procs |-> TRUE] /\ blind = [p \in Procs |-> FALSE]
+        /\ todo = [p \in Procs |-> NCalls] /\ done = [p \in Procs |-> 0]
+        /\ committed = Zero /\ destroyed = FALSE /\ out = NoOut /\ crashed = FALSE
 
 Goto(p, l) == pc' = [pc EXCEPT ![p] = l]
+\* the call of p returns: rv, the handle stays (or not), one call less
+Return(p, rv, keep) == /\ Goto(p, "idle") /\ todo' = [todo EXCEPT ![p] = @ - 1]
+                       /\ has' = [has EXCEPT ![p] = keep]
+                       /\ out' = <<p, kind[p], rv, Zero>>
+Refreshed(p) == IF disk.gen # cache[p].gen THEN Loaded ELSE cache[p]
 
-Begin(p) == pc[p] = "idle" /\ todo[p] > 0 /\ Goto(p, "refresh")
-            /\ UNCHANGED <<disk, objW, txLock, cache, todo, done, committed, crashed>>
-\* reload under a read lock (waits while another process holds the write lock); an empty file is skipped
-Refresh(p, next) ==
-    /\ objW = 0
-    /\ cache' = IF disk.e THEN cache ELSE IF disk.gen # cache[p].gen THEN [cache EXCEPT ![p] = disk] ELSE cache
-    /\ Goto(p, next)
-    /\ UNCHANGED <<disk, objW, txLock, todo, done, committed, crashed>>
-DoRefresh(p)  == pc[p] = "refresh" /\ Refresh(p, "txlock")
-TxLock(p)     == pc[p] = "txlock" /\ txLock = 0 /\ txLock' = p
-                 /\ Goto(p, IF RefreshUnderTxLock THEN "refresh2" ELSE "mem")
-                 /\ UNCHANGED <<disk, objW, cache, todo, done, committed, crashed>>
-DoRefresh2(p) == pc[p] = "refresh2" /\ Refresh(p, "mem")
-Mem(p)        == pc[p] = "mem" /\ cache' = [cache EXCEPT ![p].attrs[Mine(p)] = done[p] + 1]
-                 /\ Goto(p, "wlock") /\ UNCHANGED <<disk, objW, txLock, todo, done, committed, crashed>>
-WLock(p)      == pc[p] = "wlock" /\ objW = 0 /\ objW' = p
-                 /\ cache' = [cache EXCEPT ![p].gen = IF disk.e THEN 0 ELSE disk.gen]       \* Generation::sync
-                 /\ Goto(p, "trunc") /\ UNCHANGED <<disk, txLock, todo, done, committed, crashed>>
-Trunc(p)      == pc[p] = "trunc" /\ disk' = (IF Atomic THEN disk ELSE EmptyF) /\ Goto(p, "flush")
-                 /\ UNCHANGED <<objW, txLock, cache, todo, done, committed, crashed>>
-Flush(p)      == pc[p] = "flush" /\ disk' = Rec(cache[p].gen + 1, cache[p].attrs)
-                 /\ cache' = [cache EXCEPT ![p].gen = cache[p].gen + 1]
-                 /\ objW' = 0 /\ Goto(p, "txunlock")
-                 /\ UNCHANGED <<txLock, todo, done, committed, crashed>>
-TxUnlock(p)   == pc[p] = "txunlock" /\ txLock' = 0 /\ Goto(p, "idle")
-                 /\ todo' = [todo EXCEPT ![p] = @ - 1] /\ done' = [done EXCEPT ![p] = @ + 1]
-                 /\ committed' = [committed EXCEPT ![Mine(p)] = done[p] + 1]
-                 /\ UNCHANGED <<disk, objW, cache, crashed>>
-Step(p) == Begin(p) \/ DoRefresh(p) \/ TxLock(p) \/ DoRefresh2(p) \/ Mem(p) \/ WLock(p) \/ Trunc(p) \/ Flush(p) \/ TxUnlock(p)
+MBegin(p, k) == /\ ~crashed /\ pc[p] = "idle" /\ todo[p] > 0 /\ has[p] /\ k \in Kinds \cap {"set", "destroy"}
+                /\ Goto(p, "refresh") /\ kind' = [kind EXCEPT ![p] = k] /\ out' = <<p, k, "begin", Zero>>
+                /\ UNCHANGED <<disk, objW, txLock, cache, has, blind, todo, done, committed, destroyed, crashed>>
+
+MRefresh(p) == /\ ~crashed /\ pc[p] = "refresh" /\ (disk.x => objW = 0)
+               /\ IF ~disk.x
+                  THEN Return(p, "INV", FALSE) /\ UNCHANGED cache
+                  ELSE /\ cache' = [cache EXCEPT ![p] = Refreshed(p)]
+                       /\ Goto(p, IF kind[p] = "set" THEN "txlock" ELSE "rm")
+                       /\ out' = <<p, kind[p], "", Zero>> /\ UNCHANGED <<has, todo>>
+               /\ UNCHANGED <<disk, objW, txLock, kind, blind, done, committed, destroyed, crashed>>
+
+MTxLock(p, r) == /\ ~crashed /\ pc[p] = "txlock" /\ txLock = 0 /\ r \in Reload
+                 /\ IF r /\ ~disk.x
+                    THEN Return(p, "INV", FALSE) /\ UNCHANGED <<cache, txLock>>     \* found gone under the lock
+                    ELSE /\ txLock' = p
+                         /\ cache' = [cache EXCEPT ![p] = [(IF r THEN Refreshed(p) ELSE cache[p]) EXCEPT !.attrs[p] = done[p] + 1]]
+                         /\ Goto(p, "wlock") /\ out' = <<p, kind[p], "", Zero>> /\ UNCHANGED <<has, todo>>
+                 /\ disk' = [disk EXCEPT !.lk = IF r /\ ~disk.x THEN @ ELSE TRUE]                    \* open(O_CREAT) of <uuid>.lock
+                 /\ UNCHANGED <<objW, kind, blind, done, committed, destroyed, crashed>>
+
+MWLock(p, c) == /\ ~crashed /\ pc[p] = "wlock" /\ objW = 0 /\ c \in (IF disk.x THEN {TRUE} ELSE Recreate)
+                /\ IF disk.x
+                   THEN /\ objW' = p /\ UNCHANGED <<disk, txLock>>
+                        /\ cache' = [cache EXCEPT ![p].gen = IF disk.e THEN 0 ELSE disk.gen, ![p].wino = disk.ino]   \* Generation::sync
+                        /\ Goto(p, "trunc") /\ out' = <<p, kind[p], "", Zero>> /\ UNCHANGED <<has, todo>>
+                   ELSE IF c
+                   THEN /\ disk' = [gen |-> 0, attrs |-> Zero, e |-> TRUE, x |-> TRUE, ino |-> disk.ino + 1, lk |-> disk.lk]   \* O_CREAT
+                        /\ objW' = p /\ UNCHANGED txLock
+                        /\ cache' = [cache EXCEPT ![p].gen = 0, ![p].wino = disk.ino + 1]
+                        /\ Goto(p, "trunc") /\ out' = <<p, kind[p], "", Zero>> /\ UNCHANGED <<has, todo>>
+                   ELSE /\ Return(p, "ERR", has[p]) /\ txLock' = (IF txLock = p THEN 0 ELSE txLock)
+                        /\ UNCHANGED <<disk, objW, cache>>
+                /\ UNCHANGED <<kind, blind, done, committed, destroyed, crashed>>
+
+Mine(p) == disk.x /\ cache[p].wino = disk.ino        \* the file p has open is the one in the directory
+MTrunc(p) == /\ ~crashed /\ pc[p] = "trunc"
+             /\ disk' = (IF Atomic \/ ~Mine(p) THEN disk ELSE [disk EXCEPT !.e = TRUE])
+             /\ Goto(p, "flush") /\ out' = <<p, kind[p], "", Zero>>
+             /\ UNCHANGED <<objW, txLock, cache, kind, has, blind, todo, done, committed, destroyed, crashed>>
+MFlush(p) == /\ ~crashed /\ pc[p] = "flush"
+             /\ disk' = (IF Mine(p) THEN [disk EXCEPT !.gen = cache[p].gen + 1, !.attrs = cache[p].attrs, !.e = FALSE] ELSE disk)
+             /\ cache' = [cache EXCEPT ![p].gen = @ + 1]
+             /\ objW' = (IF objW = p THEN 0 ELSE objW) /\ Goto(p, "txunlock") /\ out' = <<p, kind[p], "", Zero>>
+             /\ UNCHANGED <<txLock, kind, has, blind, todo, done, committed, destroyed, crashed>>
+MTxUnlock(p) == /\ ~crashed /\ pc[p] = "txunlock" /\ txLock' = (IF txLock = p THEN 0 ELSE txLock)
+                /\ Return(p, "OK", TRUE)
+                /\ done' = [done EXCEPT ![p] = @ + 1] /\ committed' = [committed EXCEPT ![p] = done[p] + 1]
+                /\ UNCHANGED <<disk, objW, cache, kind, blind, destroyed, crashed>>
+
+\* unlink needs no lock; a writer that has the file open goes on writing to the unlinked inode
+\* (two processes destroying at once: the second unlink fails, its call returns an error)
+MRm(p) == /\ ~crashed /\ pc[p] = "rm"
+          /\ IF disk.x THEN /\ disk' = [disk EXCEPT !.x = FALSE] /\ objW' = 0
+                             /\ Goto(p, "rmlock") /\ out' = <<p, kind[p], "", Zero>> /\ UNCHANGED <<has, todo>>
+                        ELSE Return(p, "ERR", TRUE) /\ UNCHANGED <<disk, objW>>
+          /\ UNCHANGED <<txLock, cache, kind, blind, done, committed, destroyed, crashed>>
+\* a lock file that is unlinked no longer excludes anybody who opens the name afresh
+\* (if the lock file is already gone - only possible after a re-creation - the call reports an error)
+MRmLock(p) == /\ ~crashed /\ pc[p] = "rmlock" /\ txLock' = 0
+              /\ IF disk.lk THEN Return(p, "OK", FALSE) /\ destroyed' = TRUE
+                             ELSE Return(p, "ERR", TRUE) /\ UNCHANGED destroyed
+              /\ disk' = [disk EXCEPT !.lk = FALSE]
+              /\ blind' = [blind EXCEPT ![p] = TRUE]
+              /\ UNCHANGED <<objW, cache, kind, done, committed, crashed>>
+
+MGet(p) == /\ ~crashed /\ pc[p] = "idle" /\ todo[p] > 0 /\ has[p] /\ "get" \in Kinds /\ (disk.x => objW = 0)
+           /\ Goto(p, "idle") /\ todo' = [todo EXCEPT ![p] = @ - 1]
+           /\ IF disk.x THEN /\ cache' = [cache EXCEPT ![p] = Refreshed(p)] /\ out' = <<p, "get", "OK", Refreshed(p).attrs>>
+                             /\ UNCHANGED has
+                        ELSE /\ has' = [has EXCEPT ![p] = FALSE] /\ out' = <<p, "get", "INV", Zero>> /\ UNCHANGED cache
+           /\ UNCHANGED <<disk, objW, txLock, kind, blind, done, committed, destroyed, crashed>>
+Sees(p) == disk.x /\ ~blind[p]
+MFind(p) == /\ ~crashed /\ pc[p] = "idle" /\ todo[p] > 0 /\ "find" \in Kinds /\ (Sees(p) => objW = 0)
+            /\ Goto(p, "idle") /\ todo' = [todo EXCEPT ![p] = @ - 1]
+            /\ has' = [has EXCEPT ![p] = Sees(p)]
+            /\ IF Sees(p) THEN LET c == IF has[p] THEN Refreshed(p) ELSE Loaded IN
+                              cache' = [cache EXCEPT ![p] = c] /\ out' = <<p, "find", "found", c.attrs>>
+                         ELSE out' = <<p, "find", "absent", Zero>> /\ UNCHANGED cache
+            /\ UNCHANGED <<disk, objW, txLock, kind, blind, done, committed, destroyed, crashed>>
+
 \* every process dies (fcntl locks vanish, buffered data is lost, the disk stays as it is)
-Crash == ~crashed /\ crashed' = TRUE /\ pc' = [p \in Procs |-> "dead"] /\ objW' = 0 /\ txLock' = 0
-         /\ UNCHANGED <<disk, cache, todo, done, committed>>
-Next == (~crashed /\ \E p \in Procs : Step(p)) \/ Crash
-Spec == Init /\ [][Next]_vars
+Crash == /\ ~crashed /\ crashed' = TRUE /\ pc' = [p \in Procs |-> "dead"] /\ objW' = 0 /\ txLock' = 0 /\ out' = NoOut
+         /\ UNCHANGED <<disk, cache, kind, has, blind, todo, done, committed, destroyed>>
 
+Next == \/ \E p \in Procs, k \in {"set", "destroy"} : MBegin(p, k)
+        \/ \E p \in Procs : MRefresh(p)
+        \/ \E p \in Procs, r \in BOOLEAN : MTxLock(p, r)
+        \/ \E p \in Procs, c \in BOOLEAN : MWLock(p, c)
+        \/ \E p \in Procs : MTrunc(p)
+        \/ \E p \in Procs : MFlush(p)
+        \/ \E p \in Procs : MTxUnlock(p)
+        \/ \E p \in Procs : MRm(p)
+        \/ \E p \in Procs : MRmLock(p)
+        \/ \E p \in Procs : MGet(p)
+        \/ \E p \in Procs : MFind(p)
+Spec      == Init /\ [][Next]_vars
+CrashSpec == Init /\ [][Next \/ Crash]_vars
+
+TypeOK == /\ objW \in Procs \cup {0} /\ txLock \in Procs \cup {0}
+          /\ \A p \in Procs : pc[p] \in {"idle", "refresh", "txlock", "wlock", "trunc", "flush", "txunlock", "rm", "rmlock", "dead"}
 Quiescent == \A p \in Procs : pc[p] = "idle"
-\* C15: no interleaving loses a committed update
-NoLostCommittedUpdate == Quiescent => (~disk.e /\ \A a \in Procs : disk.attrs[a] = committed[a])
+\* C15: no interleaving loses a committed update ...
+NoLostCommittedUpdate == Quiescent /\ ~destroyed /\ ~crashed => (disk.x /\ ~disk.e /\ \A a \in Procs : disk.attrs[a] = committed[a])
+\* ... or brings back an object whose destruction was committed
+DestroyedStaysDestroyed == destroyed => ~disk.x
+\* the object file is only rewritten under both locks
+WriterExcludes == \A p \in Procs : pc[p] \in {"trunc", "flush"} /\ Mine(p) => objW = p
 \* C16: after a crash the file holds a complete state (old or new), never nothing
-CrashOldOrNew == crashed => ~disk.e
+CrashOldOrNew == crashed /\ disk.x => ~disk.e
 =============================================================================
